@@ -37,6 +37,7 @@ def catalogue() -> list[dict]:
             out.append({"id": f"{pid.lower()}-refactor-introduce-locals", "property": pid, "expect": "silent", "transform": "extract-temps", "source": p.name})
             out.append({"id": f"{pid.lower()}-refactor-log-everywhere", "property": pid, "expect": "silent", "transform": "log-everywhere", "source": p.name})
             out.append({"id": f"{pid.lower()}-refactor-else-after-guard", "property": pid, "expect": "silent", "transform": "unflatten-guards", "source": p.name})
+            out.append({"id": f"{pid.lower()}-refactor-annotate-locals", "property": pid, "expect": "silent", "transform": "annotate-locals", "source": p.name})
     # every kept seed (a change written by an independent sub-agent and confirmed to break its
     # property) must keep firing
     for mp in sorted((VERIF / "seeded").glob("*/meta.json")):
@@ -136,13 +137,13 @@ def run_variant(m: dict) -> dict:
             if pr.returncode != 0 and "pynetdicom/" in (pr.stdout + pr.stderr) and "FAILED" in (pr.stdout + pr.stderr):
                 err = f"patch did not apply: {(pr.stdout + pr.stderr)[-200:]}"
             if err is None and m.get("then"):
-                tool = {"rename-locals": "rename_locals.py", "invert-ifs": "invert_ifs.py", "misc-rewrites": "misc_rewrites.py", "extract-temps": "extract_temps.py", "log-everywhere": "log_everywhere.py", "unflatten-guards": "unflatten_guards.py"}[m["then"]]
+                tool = {"rename-locals": "rename_locals.py", "invert-ifs": "invert_ifs.py", "misc-rewrites": "misc_rewrites.py", "extract-temps": "extract_temps.py", "log-everywhere": "log_everywhere.py", "unflatten-guards": "unflatten_guards.py", "annotate-locals": "annotate_locals.py"}[m["then"]]
                 pr = subprocess.run(["/venv/bin/python", str(VERIF / "tools" / tool), str(tmp)], capture_output=True, text=True)
                 err = None if pr.returncode == 0 else f"{tool} failed: {pr.stderr[-200:]}"
-        elif m.get("transform") in ("rename-locals", "invert-ifs", "misc-rewrites", "extract-temps", "log-everywhere", "unflatten-guards"):
+        elif m.get("transform") in ("rename-locals", "invert-ifs", "misc-rewrites", "extract-temps", "log-everywhere", "unflatten-guards", "annotate-locals"):
             # behaviour-preserving whole-tree rewrites: every local renamed / every if-else inverted, re-printed
             _copy_pkg(src, tmp)
-            tool = {"rename-locals": "rename_locals.py", "invert-ifs": "invert_ifs.py", "misc-rewrites": "misc_rewrites.py", "extract-temps": "extract_temps.py", "log-everywhere": "log_everywhere.py", "unflatten-guards": "unflatten_guards.py"}[m["transform"]]
+            tool = {"rename-locals": "rename_locals.py", "invert-ifs": "invert_ifs.py", "misc-rewrites": "misc_rewrites.py", "extract-temps": "extract_temps.py", "log-everywhere": "log_everywhere.py", "unflatten-guards": "unflatten_guards.py", "annotate-locals": "annotate_locals.py"}[m["transform"]]
             pr = subprocess.run([sys.executable, str(VERIF / "tools" / tool), str(tmp)], capture_output=True, text=True)
             err = None if pr.returncode == 0 else f"{tool} failed: {pr.stderr[-200:]}"
         else:
